@@ -125,7 +125,11 @@ class C11(object):
             im[rnd.randrange(ns), :] = 10  # and one long union
         else:
             kind, im = make_image(rnd, g, ns, nf)
-        vals = sorted(set(np.round(im.ravel(), 3).tolist()))
+        if rnd.random() < 0.15:
+            # not-a-number pixels (masked or bad pixels in processed data) are not strictly above any threshold
+            for _ in range(rnd.randint(1, 3)):
+                im[rnd.randrange(ns), rnd.randrange(nf)] = np.nan
+        vals = sorted(set(np.round(im[np.isfinite(im)].ravel(), 3).tolist())) or [0.0]
         th = rnd.choice([0.0, 0.0, 5.0, 12.0, -1.0, 1e6] + vals[:3])
         cfg = enginea.draw_cfg(rnd, max_team=16)
         if ns >= 200:
@@ -268,7 +272,7 @@ class C11(object):
             results["dense%d" % con8] = arr["labels"].copy()
             digs.append(enginea.sha(arr["labels"]))
         # ---- sparse and splat on the stored pixels (image > cut, cut <= threshold)
-        stored = im > np.float32(min(desc["cut"], th))
+        stored = (im > np.float32(min(desc["cut"], th))) | np.isnan(im)
         if stored.any():
             r, c = np.nonzero(stored)
             sel = np.flatnonzero(stored.ravel())
